@@ -228,3 +228,31 @@ PROP_INFO["C03"] = {
     "bounds": "index steps 0..9999; one-byte ASCII member names; routes: index (incl. negative) and slice (incl. negative steps) on arrays of 3, wildcard on a 2-member object and a 2-element array, name selector in shorthand / single / double quoted spelling; real core::fmt",
     "outside": ["running a reported path as a query (needs the pest parser on a symbolic string: out of reach)", "multi-byte member names, names longer than one byte", "paths through descendant and filter routes (multi-stage, see C02)", "indices above 9999"],
 }
+
+# ----------------------------------------------------------------------------- C06 / C07 (validators behind the grammar only)
+_VAL = [
+    H("parser", "c06_validate_range", funcs=["parser::validate_range"], symbolic="any i64", shape="-", est=5),
+] + [
+    H("parser", "c06_validate_js_str_" + k, funcs=["parser::validate_js_str"], symbolic="arbitrary valid UTF-8 of scalar widths " + k, shape="string of %d bytes" % sum(int(c) for c in k.split("_")[0:] if c.isdigit()), est=10)
+    for k in ("w1", "w1_1", "w1_1_1", "w2_1", "w1_3", "w4")
+]
+_OPS = [H("model", "c07_comparison_ops", funcs=["parser::model::Comparison::try_new"], symbolic="operator token: any ASCII string of 1..3 bytes", shape="-", est=100)]
+_FNS_OK = ["length_1", "length_lit", "value_1", "count_1", "match_2", "search_2", "custom"]
+_FNS_BAD = ["length_0", "length_2", "value_2", "count_0", "match_1", "search_0"]
+_FNS_BAD_SLOW = ["count_lit", "count_filter"]
+def _fn(k, role="A"):
+    return H("model", ("c07_roleb_fn_" if role == "B" else "c07_fn_") + k, funcs=["parser::model::TestFunction::try_new"], role=role,
+             symbolic="- (name, arity and argument kind concrete)", shape="call " + k, est=8)
+_LAYOUT = [H("model", "ast_layout_sanity", funcs=["discriminant values of the cfg(kani) repr(u8) AST enums"], symbolic="-", shape="-", est=80)]
+PROPS["C06"] = _VAL + _OPS + [_fn(k) for k in _FNS_OK]
+def _slow(h):
+    h["tiers"] = ("thorough",); h["timeout"] = 3000; h["est"] = 2000
+    return h
+PROPS["C07"] = _VAL + _OPS + [_fn(k) for k in _FNS_BAD] + [_slow(_fn(k)) for k in _FNS_BAD_SLOW] + [_fn("value_lit", "B")]
+PROP_INFO["C06"] = {
+    "bounds": "PARTIAL: only the hand-written validators behind the grammar: validate_range (every i64), validate_js_str (strings of 1..3 scalars, any content), Comparison::try_new (every ASCII token of 1..3 bytes), TestFunction::try_new (listed well-formed calls)",
+    "outside": ["the pest grammar itself (syntax, blank space, escapes, number formats, precedence) and AST construction from Pair<Rule>: pest does not go through CBMC even on a 3-byte concrete input (measured) - not applicable to this technique"],
+    "level_text": "PARTIAL claim. Bounded model checking of the four hand-written validation units the parser calls after the PEG match; the grammar, which decides most of this property, is outside what a solver-based check of the real code can reach here and is NOT covered.",
+}
+PROP_INFO["C07"] = dict(PROP_INFO["C06"])
+PROP_INFO["C07"]["bounds"] = PROP_INFO["C06"]["bounds"].replace("listed well-formed calls", "listed mis-aritied / ill-typed calls") 
